@@ -98,6 +98,8 @@ def gen_op(rng, cfg, st, profile):
         op['k'] = rng.choice(COUNTER_KEYS)
         op['delta'] = rng.choice([1, 1, -1, 5, 2 ** 62])
         op['default'] = rng.choice([0, 0, 10, None])
+        if rng.random() < 0.35:
+            op['via'] = 'decr'      # the same step spelled decr(key, -delta)
     elif m == 'push':
         op['v'] = rng.choice(vals)
         op['prefix'] = rng.choice(PREFIXES)
@@ -201,7 +203,66 @@ def c01_values(rng, mfs, disk, n_random=6):
     if disk == 'pickle':
         vals += [(1, 'a', None), (), ((1, 2), (3, (4,))), frozenset([1]), b'', bytearray(b'ab'), 1 + 2j,
                  {'a': (1, 2)}, struct_nan()]
+        vals += subclass_values(m)
     return vals
+
+
+class StrSub(str):
+    """a str subclass carrying state: must come back as StrSub, not as plain text"""
+    def __new__(cls, s='', extra=None):
+        o = str.__new__(cls, s)
+        o.extra = extra
+        return o
+
+    def __reduce__(self):
+        return (StrSub, (str.__str__(self), self.extra))
+
+    def __eq__(self, other):
+        return type(other) is StrSub and str.__eq__(self, other) and self.extra == other.extra
+
+    def __ne__(self, other):
+        return not self.__eq__(other)
+
+    __hash__ = str.__hash__
+
+    def __repr__(self):
+        return 'StrSub(%r, %r)' % (str.__str__(self), self.extra)
+
+
+class BytesSub(bytes):
+    pass
+
+
+class IntSub(int):
+    pass
+
+
+class FloatSub(float):
+    pass
+
+
+import enum  # noqa: E402
+
+
+class Colour(str, enum.Enum):
+    RED = 'red'
+    LONG = 'l' * 40
+
+
+class Level(enum.IntEnum):
+    LOW = 1
+    HIGH = 2 ** 40
+
+
+SUBCLASSES = {'StrSub': StrSub, 'BytesSub': BytesSub, 'IntSub': IntSub, 'FloatSub': FloatSub}
+ENUMS = {'Colour': Colour, 'Level': Level}
+
+
+def subclass_values(m):
+    """instances of subclasses of the natively stored types: the exact-type tests of Disk.store
+    must send them through pickle (both sides of the file threshold)"""
+    return [StrSub('ab', extra=7), StrSub('s' * (m + 1), extra='x'), BytesSub(b'xy'), BytesSub(b'b' * (m + 1)),
+            IntSub(5), IntSub(2 ** 70), FloatSub(2.5), Colour.RED, Colour.LONG, Level.LOW, Level.HIGH]
 
 
 def struct_nan():
